@@ -193,7 +193,7 @@ def coq_case(case, obs, sysname, flag):
                obs["steps"], obs["iterations"], "[" + ";".join(fl(e) for e in obs["errors"]) + "]"))
 
 
-def eval_in_coq(name, items, flag, shard=120, timeout=900):
+def eval_in_coq(name, items, flag, shard=120, timeout=900, div_small=True):
     """items: list of (case, obs). Returns (failing indices, near-tie indices, error or None)."""
     jobs, index = [], []
     for cplx in (False, True):
@@ -211,7 +211,7 @@ def eval_in_coq(name, items, flag, shard=120, timeout=900):
                 terms.append(coq_case(c, o, systems[key], flag))
             ty = "cpx" if cplx else "float"
             text = HEADER + "".join(body) + "Definition cases : list (case %s) := [\n" % ty + ";\n".join(terms) + "].\n"
-            text += "Eval vm_compute in (length cases, %s cases).\n" % ("classify_cplx" if cplx else "classify_real")
+            text += "Eval vm_compute in (length cases, %s cases).\n" % (("classify_cplx" if cplx else "classify_real") + ("" if div_small else "1"))
             jobs.append(("%s_%s%d" % (name, "c" if cplx else "r", s // shard), text))
             index.append(part)
     outs = core.coqc_many(jobs, timeout)
@@ -289,7 +289,7 @@ def oracle(case, obs, flag_present, opt_tol):
         bad.append("non-finite solution")
         return bad, info
     # stopping contract on the tracked residuals (recursively updated, relative to ||b||)
-    safe = np.where(bn < 1e-40, 1e-40, bn)
+    safe = np.where(bn < 1e-40, 1e-40 if case.get("div_small", True) else 1.0, bn)     # do_safe_div: 1e-40 (pinned) or 1 (repaired)
     scaled_x0 = X0 if flag_present else X0 / safe
     r0n = np.linalg.norm(B / safe - A @ scaled_x0, axis=0)
     tolc = case["tol"] * (1 + r0n)
